@@ -3,7 +3,7 @@ import os
 from .. import guards, scalar
 from .. import buildmodel as bm
 
-EXPL = ('Partial claim. [k]P for all k and the decomposition arithmetic are value-level and NOT decided. Decided: '
+EXPL = ('(R-POLY/tables) the set-up code of the interleaved w-NAF multiplications is executed with concrete control and symbolic group values: in G2::multiply_frobenius digit stream j is recoded from c[j] and table j is filled from (sign(x) psi)^j (a) = [|x|^j] a on every path (an unfilled table only where its stream is empty); in G1::multiply_endomorphism both streams come from (c0, c1) and the table from a; WnafTable::fill_table gives table[k] = (2k+1) base for every instantiation. Partial claim. [k]P for all k and the decomposition arithmetic are value-level and NOT decided. Decided: '
         '(R-DISPATCH) on the resolved call graph of every instantiation, no function that handles a point not yet known '
         'to be in the order-r subgroup (subgroup test, cofactor clearing in sampling and identity derivation, hash-to-curve) '
         'can reach a multiplication that is only valid on the subgroup (GLV endomorphism, Frobenius base-|x|, their '
@@ -27,3 +27,6 @@ def run(ctx):
         scalar.rule_digit_guard(ctx, cfg, prog)
         scalar.rule_wnaf_witnesses(ctx, cfg, prog)
         scalar.rule_glv_constants(ctx, cfg, prog)
+        from .. import tables
+        nt = tables.rule_tables(ctx, cfg, prog)
+        ctx.floor('R-POLY/tables obligations[%s]' % cfg, nt, 4)
